@@ -23,12 +23,31 @@ SHAPES = {
     "independent": [("a", "c"), ("b", "c")],
     "fan-out": [("a", "b"), ("a", "c")],
     "single": [],
+    # an op reading the same array on two edges (x*x + y after fusion) plus a deeper input
+    "repeated-edge": [("a", "c"), ("a", "c"), ("b", "d"), ("d", "c")],
+    "repeated-edge-chain": [("a", "b"), ("a", "b"), ("b", "c"), ("a", "c")],
+    # ... where the other input is produced by a longer chain (unequal depths)
+    "repeated-edge-deep": [("a", "c"), ("a", "c"), ("b", "d"), ("d", "e"), ("e", "c")],
+    "unequal-depth-join": [("a", "d"), ("b", "c"), ("c", "d")],
 }
+
+
+def all_small_dags(nops):
+    """every multigraph DAG over `nops` ops (edges from earlier to later letters, multiplicity 0..2)"""
+    import itertools
+
+    names = "abcde"[:nops]
+    pairs = [(u, v) for i, u in enumerate(names) for v in names[i + 1:]]
+    for mult in itertools.product((0, 1, 2), repeat=len(pairs)):
+        edges = []
+        for (u, v), m in zip(pairs, mult):
+            edges.extend([(u, v)] * m)
+        yield edges
 
 
 def build_dag(c, shape, lazy=True, computed=()):
     """ops a,b,c,d with one output array each; edge (u,v): v reads u's output."""
-    edges = SHAPES[shape]
+    edges = SHAPES[shape] if isinstance(shape, str) else [tuple(e) for e in shape]
     ops = sorted({x for e in edges for x in e}) or ["a"]
     dag = nx.MultiDiGraph()
     for o in ops:
@@ -284,3 +303,55 @@ class SingleThreadedExecuteDag(OrderSpec):
             for v in live:
                 if u != v and nx.has_path(c.dag, u, v) and u in order and v in order:
                     yield f"barrier[{u}->{v}]", order.index(u) < order.index(v)
+
+
+@register
+class VisitNodeGenerations(OrderSpec):
+    """visit_node_generations(dag) / visit_nodes(dag): every non-skipped op node is yielded exactly once; a node is
+    yielded only after every op it depends on (through any number of parallel edges) has been yielded in an *earlier*
+    generation (resp. earlier position); skipped nodes (no pipeline, or computed) are never yielded."""
+
+    target = "cubed.runtime.pipeline:visit_node_generations"
+    props = ("C07", "C09")
+    bounded = ("DAG shapes: the named shapes plus every multigraph DAG over 3 (quick) / 4 (thorough) operations with edge "
+               "multiplicity <= 2; which ops are already computed enumerated",)
+
+    def configs(self, tier):
+        out = []
+        for s_ in SHAPES:
+            out.append(dict(shape=s_, computed=[], fn="generations"))
+            out.append(dict(shape=s_, computed=[], fn="nodes"))
+        out.append(dict(shape="diamond", computed=["b"], fn="generations"))
+        out.append(dict(shape="repeated-edge", computed=["d"], fn="generations"))
+        # exhaustive: every multigraph DAG over 3 (quick) / 4 (thorough) operations
+        for edges in all_small_dags(3 if tier == "quick" else 4):
+            if edges:
+                out.append(dict(shape=[list(e) for e in edges], computed=[], fn="generations"))
+        return out
+
+    def setup(self, c):
+        dag, ops = build_dag(c, c.cfg["shape"], computed=c.cfg["computed"])
+        c.dag, c.ops = dag, ops
+        return (dag,), {}
+
+    def call(self, c, args, kwargs):
+        if c.cfg["fn"] == "nodes":
+            fn = c.interp.world.lookup("cubed.runtime.pipeline:visit_nodes")
+            return [[x] for x in c.interp.call(fn, list(args), {})]
+        return list(super().call(c, args, kwargs))
+
+    def ensures(self, c, a, k, gens):
+        live = [f"op-{o}" for o in c.ops if o not in c.cfg["computed"]]
+        pos = {}
+        flat = []
+        for gi, g in enumerate(gens):
+            for name, node in g:
+                flat.append(name)
+                pos.setdefault(name, gi)
+                yield f"yields-the-node's-own-attributes[{name}]", node is c.dag.nodes[name] or node == dict(c.dag.nodes[name])
+        yield "each-live-op-exactly-once", sorted(flat) == sorted(live)
+        yield "no-empty-generation", all(len(g) > 0 for g in gens)
+        for u in live:
+            for v in live:
+                if u != v and nx.has_path(c.dag, u, v) and u in pos and v in pos:
+                    yield f"producer-in-earlier-generation[{u}->{v}]", pos[u] < pos[v]
